@@ -50,7 +50,7 @@ pub trait DiffHook: Sized {
     /*@*/     requires hook_pre_c((*old(self)).failed(), (*old(self)).relies(), (*old(self)).rely_rel(), (*old(self)).rely_st(), Ev::Equal(old_index, new_index, len)),
     /*@*/     ensures (*final(self)).trace() == (*old(self)).trace().push(Ev::Equal(old_index, new_index, len)),
     /*@*/         hook_frame_c((*old(self)).relies(), (*final(self)).relies(), (*old(self)).rely_rel(), (*final(self)).rely_rel(), (*final(self)).failed(), (*final(self)).last_err(), res),
-    /*@*/         (*final(self)).rely_st() == step_rel((*old(self)).rely_rel(), (*old(self)).rely_st(), Ev::Equal(old_index, new_index, len)),
+    /*@*/         res.is_ok() ==> (*final(self)).rely_st() == step_rel((*old(self)).rely_rel(), (*old(self)).rely_st(), Ev::Equal(old_index, new_index, len)),
     ;
 
     /// Called when a section of length `old_len`, starting at `old_index`,
@@ -64,7 +64,7 @@ pub trait DiffHook: Sized {
     /*@*/     requires hook_pre_c((*old(self)).failed(), (*old(self)).relies(), (*old(self)).rely_rel(), (*old(self)).rely_st(), Ev::Delete(old_index, old_len, new_index)),
     /*@*/     ensures (*final(self)).trace() == (*old(self)).trace().push(Ev::Delete(old_index, old_len, new_index)),
     /*@*/         hook_frame_c((*old(self)).relies(), (*final(self)).relies(), (*old(self)).rely_rel(), (*final(self)).rely_rel(), (*final(self)).failed(), (*final(self)).last_err(), res),
-    /*@*/         (*final(self)).rely_st() == step_rel((*old(self)).rely_rel(), (*old(self)).rely_st(), Ev::Delete(old_index, old_len, new_index)),
+    /*@*/         res.is_ok() ==> (*final(self)).rely_st() == step_rel((*old(self)).rely_rel(), (*old(self)).rely_st(), Ev::Delete(old_index, old_len, new_index)),
     ;
 
     /// Called when a section of the new version, of length `new_len`
@@ -78,7 +78,7 @@ pub trait DiffHook: Sized {
     /*@*/     requires hook_pre_c((*old(self)).failed(), (*old(self)).relies(), (*old(self)).rely_rel(), (*old(self)).rely_st(), Ev::Insert(old_index, new_index, new_len)),
     /*@*/     ensures (*final(self)).trace() == (*old(self)).trace().push(Ev::Insert(old_index, new_index, new_len)),
     /*@*/         hook_frame_c((*old(self)).relies(), (*final(self)).relies(), (*old(self)).rely_rel(), (*final(self)).rely_rel(), (*final(self)).failed(), (*final(self)).last_err(), res),
-    /*@*/         (*final(self)).rely_st() == step_rel((*old(self)).rely_rel(), (*old(self)).rely_st(), Ev::Insert(old_index, new_index, new_len)),
+    /*@*/         res.is_ok() ==> (*final(self)).rely_st() == step_rel((*old(self)).rely_rel(), (*old(self)).rely_st(), Ev::Insert(old_index, new_index, new_len)),
     ;
 
     /// Called when a section of the old version, starting at index
@@ -111,10 +111,10 @@ pub trait DiffHook: Sized {
     /// Always called at the end of the algorithm.
     #[inline(always)]
     fn finish(&mut self) -> (res: Result<(), Self::Error>)
-    /*@*/     requires !(*old(self)).failed(),
+    /*@*/     requires !(*old(self)).failed(), (*old(self)).relies() ==> wf((*old(self)).rely_st()),
     /*@*/     ensures (*final(self)).trace() == (*old(self)).trace() + (if Self::observes_finish() { seq![Ev::Finish] } else { Seq::<Ev>::empty() }),
     /*@*/         hook_frame_c((*old(self)).relies(), (*final(self)).relies(), (*old(self)).rely_rel(), (*final(self)).rely_rel(), (*final(self)).failed(), (*final(self)).last_err(), res),
-    /*@*/         (*final(self)).rely_st() == (*old(self)).rely_st(),
+    /*@*/         res.is_ok() ==> (*final(self)).rely_st() == (if Self::observes_finish() { step_rel((*old(self)).rely_rel(), (*old(self)).rely_st(), Ev::Finish) } else { (*old(self)).rely_st() }),
     ;
 }
 //@@ end
